@@ -93,7 +93,7 @@ func corpusValues() []valueEntry {
 	}
 
 	// --- strings
-	for _, x := range []string{"", "a", "é", "é", "Å", "ﬁ", "<script>&amp;</script>", "  ", "\x00\x1f\x7f", "\"\\/", "\U0001F468‍\U0001F469\U0001F3FD",
+	for _, x := range []string{"", "a", "é", "e\u0301", "Å", "ﬁ", "<script>&amp;</script>", "  ", "\x00\x1f\x7f", "\"\\/", "\U0001F468‍\U0001F469\U0001F3FD",
 		"�", "￿", "\U0010FFFF", "null", "true", "1", "{\"value\":1,\"type\":\"number\"}", "각", "ṩ", "\r\n\t"} {
 		add(s(x))
 	}
@@ -141,13 +141,13 @@ func corpusValues() []valueEntry {
 	add(mp("k", obj("a", list(n(1)))), cty.Map(cty.Object(map[string]cty.Type{"a": cty.List(dyn)})), cty.Map(cty.Object(map[string]cty.Type{"a": dyn})))
 
 	// --- k3: F-33 / F-34 witnesses (type lost below null / empty parts, members of one collection resolving differently)
-	add(list(mp("a", n(1)), cty.MapValEmpty(cty.Number)), cty.List(cty.Map(dyn)))             // F-33: decoder panicked on the encoder's own output
-	add(set(mp("a", n(1)), cty.MapValEmpty(cty.Number)), cty.Set(cty.Map(dyn)))               // F-33 (set)
-	add(mp("x", list(s("a")), "y", cty.ListValEmpty(cty.String)), cty.Map(cty.List(dyn)))     // F-33 (map)
-	add(list(list(n(1)), cty.NullVal(cty.List(cty.Number))), cty.List(cty.List(dyn)))         // F-33 via a null member
-	add(list(tup(n(1)), tup(cty.NullVal(cty.Number))), cty.List(cty.Tuple([]cty.Type{dyn}))) // null below a tuple: typed wrapper is written, all fine (k2)
+	add(list(mp("a", n(1)), cty.MapValEmpty(cty.Number)), cty.List(cty.Map(dyn)))                                                 // F-33: decoder panicked on the encoder's own output
+	add(set(mp("a", n(1)), cty.MapValEmpty(cty.Number)), cty.Set(cty.Map(dyn)))                                                   // F-33 (set)
+	add(mp("x", list(s("a")), "y", cty.ListValEmpty(cty.String)), cty.Map(cty.List(dyn)))                                         // F-33 (map)
+	add(list(list(n(1)), cty.NullVal(cty.List(cty.Number))), cty.List(cty.List(dyn)))                                             // F-33 via a null member
+	add(list(tup(n(1)), tup(cty.NullVal(cty.Number))), cty.List(cty.Tuple([]cty.Type{dyn})))                                      // null below a tuple: typed wrapper is written, all fine (k2)
 	add(cty.NullVal(cty.Object(map[string]cty.Type{"a": cty.Set(cty.Bool)})), cty.Object(map[string]cty.Type{"a": cty.Set(dyn)})) // F-34
-	add(cty.ListValEmpty(cty.List(cty.String)), cty.List(cty.List(dyn)))                                                         // F-34 (empty)
+	add(cty.ListValEmpty(cty.List(cty.String)), cty.List(cty.List(dyn)))                                                          // F-34 (empty)
 	add(cty.MapValEmpty(cty.Number), cty.Map(dyn))
 	add(cty.SetValEmpty(cty.Object(map[string]cty.Type{"a": cty.Number})), cty.Set(cty.Object(map[string]cty.Type{"a": dyn})))
 	add(obj("a", cty.NullVal(cty.List(cty.Number))), cty.Object(map[string]cty.Type{"a": cty.List(dyn)}))
@@ -216,12 +216,12 @@ func corpusDocs() []string {
 		`9223372036854775807`, `9223372036854775808`, `18446744073709551616`, `9007199254740993`, `0.12345678905`,
 		`123456789012345678901234567890123456789.5`, `1e350`, `-1e-350`, `0E-350`,
 		`3.141592653589793238462643383279502884197169399375105820974944592307816406286`,
-		"\"é\"", `"é"`, `"👍"`, `"\u0000"`, `"\/"`, `"Å"`,
+		"\"e\u0301\"", `"é"`, `"👍"`, `"\u0000"`, `"\/"`, `"Å"`,
 		`{"value":1,"type":"number"}`, `{"type":"number","value":1}`, `{"value":null,"type":"dynamic"}`,
-		"{\"é\":1}", "{\"é\":1}", `{"é":[1]}`, "{\"a\":{\"é\":null}}", "[{\"각\":true}]",
+		"{\"e\u0301\":1}", "{\"é\":1}", `{"é":[1]}`, "{\"a\":{\"e\u0301\":null}}", "[{\"\u1100\u1161\u11a8\":true}]",
 		`{"a":1,"a":1}`, `{"a":1,"a":1.0}`, `{"a":1,"a":1e0,"a":10e-1}`, `{"a":[1,{"b":2}],"a":[1,{"b":2}]}`,
-		"{\"é\":1,\"é\":1}", "{\"é\":\"x\",\"é\":\"x\"}",
-		`{"a":1,"a":2}`, `{"a":1,"a":"x"}`, "{\"é\":1,\"é\":\"x\"}", `{"a":{"b":1},"a":{"c":1}}`,
+		"{\"é\":1,\"e\u0301\":1}", "{\"e\u0301\":\"x\",\"é\":\"x\"}",
+		`{"a":1,"a":2}`, `{"a":1,"a":"x"}`, "{\"é\":1,\"e\u0301\":\"x\"}", `{"a":{"b":1},"a":{"c":1}}`,
 		`{"":0}`, `{"":{"":{"":null}}}`, `[{"a":1},{}]`, `[{"a":1},{"a":"x"}]`, `[[],[1],[[]]]`,
 		"\t\r\n [\n1\r\n,\t2 ] \n",
 	}
